@@ -4,6 +4,7 @@ package main
 // factory per worker), path results, witnesses.
 
 import (
+	"strconv"
 	"fmt"
 	"go/types"
 	"hash/fnv"
@@ -48,6 +49,9 @@ type JobCfg struct {
 	Redirect       map[string]string // callee -> harness function standing in for it (a summary justified elsewhere)
 
 	Known map[string]KnownFinding
+
+	Fixed     []InputVal // trace mode: every harness input is pinned to the recorded value
+	TraceOut  bool       // trace mode: print notes and observations of every completed path
 }
 
 type InputVal struct {
@@ -93,6 +97,7 @@ type PathResult struct {
 	Witness  *Witness
 	Fns      []string
 	Hash     uint64
+	Notes    []string
 }
 
 type Violation struct {
@@ -144,6 +149,9 @@ func (cfg *JobCfg) defaults() {
 	}
 	if cfg.Witnesses == 0 {
 		cfg.Witnesses = 8
+	}
+	if v, _ := strconv.Atoi(os.Getenv("GOSYM_WITNESSES")); v > 0 {
+		cfg.Witnesses = v // debugging aid: validate (up to) this many completed paths natively
 	}
 }
 
@@ -236,6 +244,15 @@ func runJob(prog *ssa.Program, cfg *JobCfg, nworkers int) *JobResult {
 				for _, f := range pr.Fns {
 					res.Fns[f] = true
 				}
+				if cfg.TraceOut && pr.Status != "infeasible" {
+					fmt.Printf("--- engine path: status=%s %s\n", pr.Status, pr.Detail)
+					for _, n := range pr.Notes {
+						fmt.Println("    " + n)
+					}
+					for _, v := range pr.Viols {
+						fmt.Printf("    VIOLATION %s %s %s\n", v.Kind, v.ID, v.Detail)
+					}
+				}
 				if pr.Witness != nil {
 					if len(res.Witnesses) < cfg.Witnesses {
 						res.Witnesses = append(res.Witnesses, pr.Witness)
@@ -314,6 +331,9 @@ func (w *worker) runPath(prog *ssa.Program, fn *ssa.Function, cfg *JobCfg, item 
 		}
 	}
 	pr.Hash = h.Sum64()
+	if cfg.TraceOut {
+		pr.Notes = append([]string{}, e.notes...)
+	}
 	for k := range e.covers {
 		pr.Covers = append(pr.Covers, k)
 	}
